@@ -609,6 +609,24 @@ def P27():
     )
 
 
+def P28():
+    """A mounting angle as calibration: cos(th) and sin(th) are shared sub-expressions that depend on calibration only."""
+    x, y, u, v, th, dt = V("x"), V("y"), V("u"), V("v"), V("th"), V("dt")
+    c, s_ = X.cos(th), X.sin(th)
+    return Program(
+        id="P28-mount",
+        state=["x", "y"],
+        control=["u", "v"],
+        calibration=["th"],
+        update={"x": x + dt * (c * u - s_ * v), "y": y + dt * (s_ * u + c * v)},
+        process_noise={"u": 0.25, "v": 0.5},
+        sensors={"front": {"a": c * x + s_ * y, "b": c * y - s_ * x}},
+        sensor_noise={"front": {"a": 0.5, "b": 0.25}},
+        calibration_values={"th": 0.625},
+        note="calibration-only common sub-expressions",
+    )
+
+
 def quick_programs():
     return [P1(), P3(), P8()]
 
@@ -619,7 +637,7 @@ def all_fixed():
 
 def catalogue():
     """Every fixed program, including the model-level-only ones (replay looks programs up by id here)."""
-    return all_fixed() + [P11(), P18(), P21(), P22(), P23(), P24(), P25(), P26(), P27()]
+    return all_fixed() + [P11(), P18(), P21(), P22(), P23(), P24(), P25(), P26(), P27(), P28()]
 
 
 def with_noise(p, process=None, sensor=None, pid=None):
